@@ -107,7 +107,10 @@ class TTLModel:
 
         def finish(live, cursor, depth):
             for p, d in list(live.items()):
-                if d is not None and d - now < RES:
+                if d is not None and d - now < 1.01 * RES:
+                    borderline = d - now >= 0.99 * RES   # exactly one clock resolution away: rounding decides whether it fired
+                    if borderline and peek(cursor, p)[1] != "expired":
+                        continue
                     r = take_end(live, cursor, p, "TTL", depth, d)
                     if not r:
                         return None
